@@ -58,10 +58,10 @@ func (f *Multiply) Call(s *slip.Scope, args slip.List, depth int) (product slip.
 				(*big.Float)(ta)),
 			)
 		case *slip.Bignum:
-			product = (*slip.Bignum)(((*big.Int)(product.(*slip.Bignum))).Mul((*big.Int)(product.(*slip.Bignum)),
+			product = reduceInteger(((*big.Int)(product.(*slip.Bignum))).Mul((*big.Int)(product.(*slip.Bignum)),
 				(*big.Int)(ta)))
 		case *slip.Ratio:
-			product = (*slip.Ratio)(((*big.Rat)(product.(*slip.Ratio))).Mul((*big.Rat)(product.(*slip.Ratio)),
+			product = reduceRational(((*big.Rat)(product.(*slip.Ratio))).Mul((*big.Rat)(product.(*slip.Ratio)),
 				(*big.Rat)(ta)))
 		case slip.Complex:
 			product = slip.Complex(complex128(product.(slip.Complex)) * complex128(ta))
